@@ -663,7 +663,12 @@ impl Regex {
     }
 
     fn new_options(options: RegexOptions) -> Result<Regex> {
-        let raw_tree = Expr::parse_tree(&options.pattern)?;
+        // The builder's case insensitivity option acts like a leading `(?i)`, so that it also
+        // applies to the parts that the VM matches itself and inner `(?-i:..)` groups work
+        let raw_tree = Parser::parse_with_case_insensitive(
+            &options.pattern,
+            options.syntaxc.get_case_insensitive(),
+        )?;
 
         // wrapper to search for re at arbitrary start position,
         // and to capture the match bounds
